@@ -77,6 +77,10 @@ def tasks(tier):
             for o, d, p in cfgs:
                 ts.append(("%s(order=%d,dim=%d,permute=%s)" % (cn, o, d, p), "run_class",
                            dict(modname=mn, clsname=cn, lagrange=(o, d, p))))
+            # order 0 (one constant shape function): the element of the cell-wise constant dual field of a first-order Lagrange region
+            for d in (1, 2, 3):
+                for p in (True, False):
+                    ts.append(("%s(order=0,dim=%d,permute=%s)" % (cn, d, p), "run_class", dict(modname=mn, clsname=cn, lagrange=(0, d, p))))
             # a reference interval other than (-1, 1): the derivative carries the chain-rule factor of the interval map
             for o, d, p, iv in ((2, 1, False, (0, 1)), (3, 2, True, (0, 1)), (2, 2, False, (-2, 5)), (2, 3, True, (0, 1))):
                 ts.append(("%s(order=%d,dim=%d,permute=%s,interval=%s)" % (cn, o, d, p, iv), "run_class",
@@ -299,6 +303,20 @@ def run_perm_tables(col, maxorder):
             same = pts.shape == lp.shape and all(is_zero(pts[a, i] - lp[perm[a], i]) for a in range(len(perm)) for i in range(pts.shape[1]))
             return okp and same, "perm ok=%s, points == lagrange.points[perm]: %s" % (okp, same)
         col.check("C04.O7", "%s._permute" % cn, "_permute is a permutation and points == _lagrange.points[_permute]", chk2)
+        n_tab += 1
+    # the permuted arbitrary-order Lagrange element lists its nodes in the order of the fixed-order element of the same cell (VTK order: vertices,
+    # edges, faces, volume): a mesh of quad9 / hexahedron27 (from the mesh tools or a file) is measured alike by RegionLagrange(order=2) and by the
+    # bi-/tri-quadratic templates
+    L = it.get("felupe.element._lagrange:ArbitraryOrderLagrange")
+    for mn, cn, order, dim in (("felupe.element._quad", "Quad", 1, 2), ("felupe.element._quad", "BiQuadraticQuad", 2, 2),
+                               ("felupe.element._hexahedron", "Hexahedron", 1, 3), ("felupe.element._hexahedron", "TriQuadraticHexahedron", 2, 3)):
+        def chk3(mn=mn, cn=cn, order=order, dim=dim):
+            ref = npmodel.to_obj(it.getattr(it.call(it.get(mn + ":" + cn), [], {}), "points"))
+            lg = npmodel.to_obj(it.getattr(it.call(L, [], dict(order=order, dim=dim, permute=True)), "points"))
+            bad = [a for a in range(ref.shape[0]) if lg.shape != ref.shape or any(not is_zero(P(lg[a, i]) - P(ref[a, i])) for i in range(dim))]
+            return not bad, "element/_lagrange.py lagrange_%s: nodes %s of ArbitraryOrderLagrange(order=%d, dim=%d) are not where %s has them" % ("quad" if dim == 2 else "hexahedron", bad[:8], order, dim, cn)
+        col.check("C04.O7", "ArbitraryOrderLagrange(order=%d,dim=%d) node order vs %s" % (order, dim, cn),
+                  "the permuted Lagrange element and the fixed-order element of the same cell type list the same node at every position", chk3)
         n_tab += 1
     col.info["permutation_tables"] = n_tab
     finish_info(col, it)
